@@ -2,8 +2,8 @@
    reachable state, by induction over the sequence of the operations that touch the two totals:
      fertiliser application (DSUMM grows by the mineral part, >= 0), the mineralisation call of a layer (either
      temperature branch), the overwrite on a measurement day and the reset at the start of a run (both totals := 0).
-   The frozen branch needs the order of the soil parameters it interpolates between (WMIN < WRED in the top layer,
-   W < PORGES[0]): that is what C15 establishes. *)
+   The frozen branch needs WMIN < WRED in the top layer (the branch that divides by PORGES[0] - W is only taken when
+   W + 0.01 < WG < PORGES[0]): that is what C15 establishes (the C15_wred_between theorems). *)
 From Coq Require Import ZArith Reals List Bool Lra Lia.
 From Hermes Require Import Num RUtil NitroModel NitroProofs.
 Import ListNotations.
@@ -17,10 +17,10 @@ Qed.
 
 Lemma ums_bounded_frozen z (l : mineral_layer_in (T:=R)) (g : mineral_glob (T:=R)) :
   0 <= mg_ums g <= mg_dsumm g -> ml_tempbo l <= 0 ->
-  ml_wmin l < mg_wred g -> ml_w l < mg_porges0 g ->
+  ml_wmin l < mg_wred g ->
   let '(o, g') := mineral_layer z l g in mg_ums g <= mg_ums g' <= mg_dsumm g /\ mg_dsumm g' = mg_dsumm g.
 Proof.
-  intros Hu Ht Hw Hp. unfold mineral_layer. rsimp.
+  intros Hu Ht Hw. unfold mineral_layer. rsimp.
   destruct (RI.ltb_spec 0 (ml_tempbo l)) as [Hc|_]; [lra|]. lazy beta iota zeta. cbn [mg_ums mg_dsumm].
   assert (Hd : @dec R RNum 4 1 = 4 / 10) by (unfold dec; cbn; lra).
   assert (Hd2 : @dec R RNum 1 2 = 1 / 100) by (unfold dec; cbn; lra).
@@ -37,6 +37,7 @@ Proof.
     - apply div_le_1; lra.
     - destruct (gtb wg (ml_w l + dec 1 2) && RI.ltb wg (mg_porges0 g))%bool eqn:E.
       + apply andb_true_iff in E. destruct E as [E1 E2]. apply gtbR in E1. rewrite Hd2 in E1.
+        destruct (RI.ltb_spec wg (mg_porges0 g)) as [E2'|E2']; [|discriminate].
         apply div_le_1; lra.
       + destruct (gtb wg (mg_porges0 g)); lra. }
   set (m := if RI.ltb m0 0 then 0 else m0).
@@ -66,7 +67,7 @@ Definition nstep (g : mineral_glob (T:=R)) (o : nop) : mineral_glob (T:=R) :=
 Definition op_ok (g : mineral_glob (T:=R)) (o : nop) : Prop :=
   match o with
   | OpFert d => 0 <= d
-  | OpMineral z l => 0 < ml_tempbo l \/ (ml_wmin l < mg_wred g /\ ml_w l < mg_porges0 g)
+  | OpMineral z l => 0 < ml_tempbo l \/ ml_wmin l < mg_wred g
   | OpReset => True
   end.
 
@@ -80,8 +81,8 @@ Proof.
     + pose proof (ums_bounded_lemma z l g Hi Hw) as H.
       pose proof (mineral_layer_books z l g) as HB.
       destruct (mineral_layer z l g) as [o g']. cbn [snd]. destruct HB as (_ & _ & _ & _ & _ & _ & Hd & _). lra.
-    + destruct Ho as [Hw|[H1 H2]]; [lra|].
-      pose proof (ums_bounded_frozen z l g Hi Hc H1 H2) as H.
+    + destruct Ho as [Hw|H1]; [lra|].
+      pose proof (ums_bounded_frozen z l g Hi Hc H1) as H.
       destruct (mineral_layer z l g) as [o g']. cbn [snd]. destruct H as [H Hd]. lra.
   - cbn. lra.
 Qed.
